@@ -37,6 +37,26 @@ def _is_next(callee):
     return ' as core::iter::Iterator>::next' in callee or re.search(r'<impl core::iter::Iterator for core::ops::Range<\w+>>::next$', callee) is not None
 
 
+def _is_counter(t, depth=0):
+    """a loop counter: starts at 0 and is advanced by exactly 1 (checked) on every way round the loop"""
+    if depth > 6 or not isinstance(t, tuple):
+        return False
+    al = t[1] if t[0] == 'phi' else (t,)
+    zero = step = False
+    for a in al:
+        if a[0] == 'const' and re.match(r'^0_(u32|u64|usize|i32|i64)$', a[1]):
+            zero = True
+            continue
+        if a[0] == 'mu' or (a[0] == 'field' and a[1] == '0' and a[2][0] == 'mu'):
+            continue          # the loop-carried value itself (of the counter, or of its checked-add pair)
+        if a[0] == 'field' and a[1] == '0' and a[2][0] == 'bin' and a[2][1] == 'AddWithOverflow' and a[2][3][0] == 'const' \
+                and re.match(r'^1_(u32|u64|usize|i32|i64)$', a[2][3][1]) and (a[2][2][0] == 'mu' or _is_counter(a[2][2], depth + 1)):
+            step = True
+            continue
+        return False
+    return zero and (step or depth > 0)
+
+
 def _len_of(t):
     """X if t is `X.len()` of a soroban Vec / slice"""
     if t[0] == 'call' and (re.search(r'soroban_sdk::Vec::<.*>::len$', t[1]) or t[1].endswith(']>::len')) and t[2]:
@@ -149,7 +169,7 @@ def _norm0(t):
         if callee.endswith('soroban_sdk::String::from_str') or callee.endswith('soroban_sdk::Address::from_string'):
             return ('lit', args[-1]) if args[-1][0] in ('const', 'lit') else ('call', callee, args) + tuple(t[3:])
         m = re.search(r'soroban_sdk::Vec::<.*>::(get|get_unchecked|try_get|try_get_unchecked)$', callee)
-        if m and len(args) == 2 and args[1] == ('elem', ('indices', args[0])):
+        if m and len(args) == 2 and (args[1] == ('elem', ('indices', args[0])) or _is_counter(args[1])):
             # element at a loop index running over `0..X.len()`: the loop element of X (always present)
             el = ('elem', args[0])
             if m.group(1) == 'get':
